@@ -11,14 +11,15 @@ F140  (invariants)  `utils/solvers.py:solve_rec_by_summing` strips every `Piecew
       in n, (b) the re-run reproduces a wrong closed form and (c) the repaired values equal the exact expectations
       E(Q(state_n)) of the Lean reference semantics for every compared n.
 
-F141  (synthesised loops)  `SolvLoopSynthesizer` replaces every effective variable by a *deterministic* variable
-      that carries its mean (`t = E-recurrence of var`), but keeps non-linear monomials of effective variables in the
-      update of the fresh variable s (and of retained variables): for a random effective z the loop computes
-      (E z)^2 where the source has E(z^2).  Structural signature decided by the Lean loop certificate
-      (op synth_loop_check): the source is random, the synthesised loop is closed, its own system and the initial
-      vectors check, and the *only* rows on which the source's one-step operator disagrees with the loop's are
-      monomials of total degree ≥ 2 in retained (effective) variables — every linear row, in particular the row of
-      s itself, agrees.  Any other disagreement is not attributed.
+F141  (synthesised loops)  `SolvLoopSynthesizer` (both `handle_unsolvable_loop` and `handle_solvable_loop`) replaces
+      every effective variable by a *deterministic* variable that carries its mean (`t = E-recurrence of var`), but
+      keeps non-linear monomials of effective variables in the updates of the fresh variable s and of retained
+      variables: for a random effective z the loop computes (E z)^2 where the source has E(z^2).  Signature, decided
+      on the exact reachable law of the source (Lean reference semantics): the source is random; every non-copy
+      update `v = g(..)` of the loop is an exact moment recurrence of the source, E[g(phi(state_n))] =
+      E[phi(v)(state_{n+1})] for all compared n (so signs, coefficients and index shifts are right) and all watched first moments agree at n = 0 (initial values are right);
+      some g contains a monomial of degree ≥ 2 all of whose variables have affine updates themselves (genuine
+      carriers of a mean).  Any other disagreement is not attributed.
 """
 from fractions import Fraction as Fr
 
@@ -27,10 +28,21 @@ from .pool import run_tasks
 
 
 def _run(fn, args, timeout=400):
-    r = run_tasks([{"fn": "harness.tasks.c14:" + fn, "args": args}], timeout=timeout, nworkers=1)[0]
-    if r.get("status") != "ok":
-        return None
-    return r["result"]
+    for _ in range(2):      # one retry: a loaded machine must not turn a known finding into a violation
+        r = run_tasks([{"fn": "harness.tasks.c14:" + fn, "args": args}], timeout=timeout, nworkers=1)[0]
+        if r.get("status") == "ok":
+            return r["result"]
+    return None
+
+
+def _model(req, timeout=90):
+    import time
+    for i in range(3):
+        ans = model_one(req, timeout=timeout)
+        if ans.get("ok"):
+            return ans
+        time.sleep(2)
+    return ans
 
 
 def piecewise_dropped(prop, rec):
@@ -55,8 +67,7 @@ def piecewise_dropped(prop, rec):
     pj = rec["source"]
     names = json_vars(pj, set()) | {x for m in Q for x, _ in m}
     sig = sigma_source(r["point"], names, set(r["symbols"]))
-    ans = model_one({"op": "moments", "program": pj, "sigma0": sig, "monos": monos or [[]], "nmax": 5, "budget": 6000},
-                    timeout=60)
+    ans = _model({"op": "moments", "program": pj, "sigma0": sig, "monos": monos or [[]], "nmax": 5, "budget": 6000})
     if not ans.get("ok"):
         return None
     exact = expect_poly(Q, monos or [[]], ans["values"])
@@ -78,27 +89,155 @@ def piecewise_dropped(prop, rec):
             f"solved effective monomial is stripped by solve_rec_by_summing/without_piecewise [{case['id']} {rec['mode']}]")
 
 
+def _expr_poly(e):
+    """model-AST expression -> polynomial {mono tuple: Fraction} (division only by constants)"""
+    from .checks.c14 import poly_mul, poly_pow
+    t = e[0]
+    if t == "num":
+        c = Fr(e[1])
+        return {(): c} if c != 0 else {}
+    if t == "var":
+        return {((e[1], 1),): Fr(1)}
+    if t in ("add", "sub"):
+        a, b = _expr_poly(e[1]), _expr_poly(e[2])
+        out = dict(a)
+        for m, c in b.items():
+            out[m] = out.get(m, Fr(0)) + (c if t == "add" else -c)
+        return {m: c for m, c in out.items() if c != 0}
+    if t == "mul":
+        return poly_mul(_expr_poly(e[1]), _expr_poly(e[2]))
+    if t == "neg":
+        return {m: -c for m, c in _expr_poly(e[1]).items()}
+    if t == "pow":
+        return poly_pow(_expr_poly(e[1]), int(e[2]))
+    if t == "div":
+        d = _expr_poly(e[2])
+        if set(d) != {()}:
+            raise ValueError("division by a non-constant")
+        return {m: c / d[()] for m, c in _expr_poly(e[1]).items()}
+    raise ValueError(e)
+
+
+def _subst_poly(g, phi):
+    from .checks.c14 import poly_mul, poly_pow
+    out = {}
+    for m, c in g.items():
+        p = {(): c}
+        for y, k in m:
+            if y not in phi:
+                return None
+            p = poly_mul(p, poly_pow(phi[y], k))
+        for mm, cc in p.items():
+            out[mm] = out.get(mm, Fr(0)) + cc
+    return {m: c for m, c in out.items() if c != 0}
+
+
 def nonlinear_effective_in_loop(prop, rec):
+    """F141, decided on the reachable law of the *source* (exact, Lean reference semantics):
+    (1) the source is random; (2) every non-copy update `v = g(..)` of the synthesised loop is an exact moment
+    recurrence of the source, E[g(phi(state_n))] = E[phi(v)(state_{n+1})] for all compared n — the loop is right
+    as a system over expectations; (3) some g contains a monomial of degree >= 2 whose variables all have affine
+    updates themselves (genuinely effective carriers of a mean) — the only thing wrong is that the loop evaluates
+    that monomial at the means.  A wrong sign / coefficient / shifted index breaks (2); a defective variable
+    wrongly retained breaks (3)."""
     if rec.get("kind") != "loop" or not rec.get("mismatch"):
         return None
-    from .checks.c14 import is_random
-    if not is_random(rec["source"]):
+    from .checks.c14 import is_random, poly_from_terms, monos_of, expect_poly
+    src, tg = rec["source"], rec["target"]
+    if not is_random(src) or not tg.get("program"):
         return None
-    cert = rec.get("cert") or {}
-    if not (cert.get("ok") and cert.get("closed") and cert.get("target_system_ok") and cert.get("init_equal")):
+    # initial values must be right: every watched first moment agrees at n = 0
+    try:
+        os_, ot = rec["oracle_source"], rec["oracle_target"]
+        for i in range(len(rec["watch"])):
+            e0 = expect_poly(rec["images"][i], rec["smonos"] or [[]], os_["values"])[0]
+            if e0 != Fr(ot["values"][i][0]):
+                return None
+    except Exception:  # noqa
         return None
-    bad = cert.get("bad_rows") or []
-    if not bad:
+    try:
+        phi = {y: poly_from_terms(t) for y, t in tg["phi"].items()}
+        vals = tg["values"]
+        # never-assigned symbols of the loop (x0, free coefficients, parameters) are constants at the sample point
+        updates = []
+        assigned = [st[1] for st in tg["program"]["body"]]
+        for st in tg["program"]["body"]:
+            if st[0] != "assign" or st[2][0] != "expr" or st[3] != ["tt"]:
+                return None
+            g = _expr_poly(st[2][1])
+            consts = {x for m in g for x, _ in m if x not in assigned and x in vals}
+            if consts:
+                from .checks.c14 import poly_mul
+                gg = {}
+                for m, c in g.items():
+                    cc, mm = c, []
+                    for x, k in m:
+                        if x in consts:
+                            cc *= Fr(vals[x]) ** k
+                        else:
+                            mm.append((x, k))
+                    mm = tuple(mm)
+                    gg[mm] = gg.get(mm, Fr(0)) + cc
+                g = {m: c for m, c in gg.items() if c != 0}
+            updates.append((st[1], g))
+    except Exception:  # noqa
         return None
-    retained = set(rec["target"]["retained"])
-    for i in bad:
-        elem = cert["elems"][i]
-        if len(elem) != 1:
+    # compose the body: value of every loop variable after one iteration as a polynomial over the old state
+    cur = {}
+    for v, g in updates:
+        sub = {}
+        ok = True
+        for m in g:
+            for x, _ in m:
+                if x not in sub:
+                    sub[x] = cur.get(x, {((x, 1),): Fr(1)})
+        gv = _subst_poly(g, sub)
+        if gv is None:
             return None
-        mono = elem[0][0]
-        if sum(k for _, k in mono) < 2 or any(x not in retained for x, _ in mono):
+        cur[v] = gv
+    work = sorted(cur.items())
+    affine = {v for v, g in work if all(sum(k for _, k in m) <= 1 for m in g)}
+    nonlinear = []
+    for v, g in work:
+        for m in g:
+            if sum(k for _, k in m) >= 2:
+                if all(x in affine for x, _ in m):
+                    nonlinear.append(m)
+                else:
+                    return None
+    if not nonlinear:
+        return None
+    # (2) exact moment recurrences along the source run
+    need, pairs = [], []
+    for v, g in work:
+        if v not in phi:
+            continue
+        lhs = _subst_poly(g, phi)
+        if lhs is None:
             return None
+        pairs.append((v, lhs, phi[v]))
+        need += monos_of(lhs) + monos_of(phi[v])
+    seen, monos = set(), []
+    for m in need:
+        key = str(m)
+        if key not in seen:
+            seen.add(key)
+            monos.append(m)
+    ans = _model({"op": "moments", "program": src, "sigma0": rec["sigma0"], "monos": monos or [[]], "nmax": 5,
+                  "budget": 6000})
+    if not ans.get("ok"):
+        return None
+    checked = 0
+    for v, lhs, img in pairs:
+        a = expect_poly(lhs, monos or [[]], ans["values"])
+        b = expect_poly(img, monos or [[]], ans["values"])
+        for n in range(min(len(a), len(b)) - 1):
+            if a[n] != b[n + 1]:
+                return None
+            checked += 1
+    if checked == 0:
+        return None
     m = rec["mismatch"]
-    return (f"synthesised loop computes powers of the means of random effective variables "
-            f"({[cert['elems'][i][0][0] for i in bad][:3]}) where the source has their moments: moment of {m['mono']} "
-            f"wrong from n={m['n']} [{rec['case']['id']}]")
+    return (f"synthesised loop evaluates non-linear monomials of random effective variables at their means "
+            f"({[[list(x) for x in mm] for mm in nonlinear][:3]}); every update is an exact moment recurrence of the source: "
+            f"moment of {m['mono']} wrong from n={m['n']} [{rec['case']['id']}]")
